@@ -81,7 +81,69 @@ func (c *Ctx) RuleEscParity() *Result {
 			res.ok(key, pos, "comparison with a backslash that is not a single-neighbour escape test")
 		})
 	}
+	// the parity helper answers "escaped" only from the count of backslashes
+	for _, fn := range c.P.RepoFns {
+		if !isEscapedLike(fn) {
+			continue
+		}
+		res.Instances++
+		key := load.FnName(fn) + ":escaped only by parity"
+		bad := ""
+		allInstrs(fn, func(in ssa.Instruction) {
+			r, ok := in.(*ssa.Return)
+			if !ok || len(r.Results) != 1 {
+				return
+			}
+			seen := map[ssa.Value]bool{}
+			var walk func(v ssa.Value, d int)
+			walk = func(v ssa.Value, d int) {
+				if d > 5 || seen[v] {
+					return
+				}
+				seen[v] = true
+				switch x := v.(type) {
+				case *ssa.Phi:
+					for _, e := range x.Edges {
+						walk(e, d+1)
+					}
+				case *ssa.Const:
+					if t, ok := constBool(x); ok && t {
+						bad = c.P.InstrPos(r)
+					}
+				case *ssa.BinOp:
+					if !derivesFromRem2(x, 0) {
+						bad = c.P.InstrPos(r)
+					}
+				default:
+					bad = c.P.InstrPos(r)
+				}
+			}
+			walk(r.Results[0], 0)
+		})
+		if bad != "" {
+			res.bad(key, c.P.FnPos(fn), fmt.Sprintf("%s also answers \"escaped\" (return at %s) for a reason other than an odd number of backslashes before the position: every pass that cuts or rewrites the expression at unescaped metacharacters (flag groups, parentheses, quotes) now skips characters that are not escaped at all", load.FnName(fn), bad))
+		} else {
+			res.ok(key, c.P.FnPos(fn), "every result is the parity of the backslash count (or false)")
+		}
+	}
 	return res
+}
+
+// derivesFromRem2: a comparison (possibly negated or combined) of a count modulo two.
+func derivesFromRem2(v ssa.Value, d int) bool {
+	if d > 4 {
+		return false
+	}
+	switch x := v.(type) {
+	case *ssa.BinOp:
+		if x.Op == token.REM && isByteConst(x.Y, 2) {
+			return true
+		}
+		return derivesFromRem2(x.X, d+1) || derivesFromRem2(x.Y, d+1)
+	case *ssa.UnOp:
+		return derivesFromRem2(x.X, d+1)
+	}
+	return false
 }
 
 // phiSteps: phi(init, phi+step) with the given sign.
@@ -131,6 +193,16 @@ func isEscapedLike(fn *ssa.Function) bool {
 	allInstrs(fn, func(in ssa.Instruction) {
 		if b, ok := in.(*ssa.BinOp); ok && (b.Op == token.EQL || b.Op == token.NEQ) && (isByteConst(b.Y, '\\') || isByteConst(b.X, '\\')) {
 			cmp = true
+		}
+		// the run of backslashes measured with strings.TrimRight(prefix, `\`) and friends
+		if cc := callCommon(in); cc != nil {
+			if f := staticCallee(cc); f != nil && objPkgPath(f) == "strings" && strings.HasPrefix(f.Name(), "TrimRight") {
+				for _, a := range cc.Args {
+					if s, ok := constString(a); ok && s == `\` {
+						cmp = true
+					}
+				}
+			}
 		}
 	})
 	return cmp
@@ -722,6 +794,7 @@ func (c *Ctx) RuleFlagSet() *Result {
 func (c *Ctx) passKind(fn *ssa.Function) string {
 	kinds := map[string]bool{}
 	tab := c.Rx()
+	cmp32, cmp126 := false, false
 	allInstrs(fn, func(in ssa.Instruction) {
 		for _, op := range in.Operands(nil) {
 			if op == nil || *op == nil {
@@ -735,8 +808,20 @@ func (c *Ctx) passKind(fn *ssa.Function) string {
 					kinds["quote"] = true
 				case strings.Contains(s, `\s\x0b`):
 					kinds["vt"] = true
-				case strings.Contains(s, `\x%x`) || strings.Contains(s, `\x{%x}`):
+				case strings.Contains(s, `\x%x`) || strings.Contains(s, `\x{%x}`) || s == `\x` || s == `\x{`:
 					kinds["hex"] = true
+				}
+			}
+		}
+		// the hex pass however it prints: it is the pass that tells control characters (< 32) and
+		// non-ASCII characters (> 126) from the printable rest
+		if b, ok := in.(*ssa.BinOp); ok {
+			if k, ok := constInt(b.Y); ok {
+				if b.Op == token.LSS && k == 32 {
+					cmp32 = true
+				}
+				if b.Op == token.GTR && k == 126 {
+					cmp126 = true
 				}
 			}
 		}
@@ -762,6 +847,9 @@ func (c *Ctx) passKind(fn *ssa.Function) string {
 			}
 		}
 	})
+	if cmp32 && cmp126 {
+		kinds["hex"] = true
+	}
 	var ks []string
 	for k := range kinds {
 		ks = append(ks, k)
